@@ -528,7 +528,7 @@ def wallet_history(job):
                 record({'op': 'observe'}, 'observe')
         except Exception as e:
             import traceback
-            desc.append('DRIVER/LIBRARY EXCEPTION at step %d: %r %s' % (step, e, traceback.format_exc()[-300:]))
+            desc.append('DRIVER/LIBRARY EXCEPTION at step %d: %r %s' % (step, e, traceback.format_exc()[-1500:]))
             break
     # stored transactions reload identically
     reload_problems = []
